@@ -5,6 +5,7 @@ from ..probe import call
 from ..ref import bits
 
 LEVEL = "exploration"
+BRANCH_TARGETS = ['pyModeS.decoder.bds.bds08:callsign', 'pyModeS.decoder.bds.bds08:category', 'pyModeS.decoder.bds.bds20:cs20', 'pyModeS.decoder.bds.bds20:is20']
 TECHNIQUE = 'runtime monitoring: forward six-bit encoder as oracle, exhaustive (code x position), pairwise independence relation'
 LEVEL_TEXT = 'Exhaustive over 37 codes x 8 positions for both carriers; 37^8 strings sampled.'
 LEVEL_RULE = (
